@@ -144,8 +144,8 @@ Ltac bridge_tail s tid Hrep sched :=
   (split; [simp_state; rewrite lookup_update, N.eqb_refl; reflexivity|]);
   (split; [cbn; auto|]);
   (split; [simp_state; reflexivity|]);
-  first [ (eexists; split; [simp_state; reflexivity|intros _; reflexivity])
-        | (exists []; split; [simp_state; rewrite app_nil_r; reflexivity|intros Hr; unfold has_room in *; congruence]) ].
+  (split; [simp_state; cbn [submits_of flat_map app snd]; rewrite ?app_nil_r; reflexivity|]);
+  (split; simp_state; rewrite ?newcfg_of_app, ?errcb_of_app; cbn [newcfg_of errcb_of flat_map app]; rewrite ?app_nil_r; reflexivity).
 
 (* ---- a value update ---- *)
 
@@ -161,7 +161,11 @@ Theorem seq_update_refines_system_l : forall (s : sysB) st tid i v,
     lookup tid (s_thr s') = Some (mkThr (OpOffer (MsgUpdate i v true)) (PDone r) false) /\
     ret_matches (snd d) r /\
     s_cb s' = s_cb s /\
-    (exists evs, s_cbq s' = s_cbq s ++ evs /\ (has_room cbcap s = true -> length evs = 1%nat)).
+    s_cbq s' = s_cbq s ++
+      (if has_room cbcap s
+       then submits_of (snd (mon_recv stackB verify pB (s_value s) st (InUpdate i v (Some tid))))
+       else []) /\
+    newcfg_of (s_log s') = newcfg_of (s_log s) /\ errcb_of (s_log s') = errcb_of (s_log s).
 Proof.
   intros s st tid i v Hm Hl Hrep Hnp d.
   set (m := MsgUpdate i v true). set (op := OpOffer m).
@@ -216,6 +220,351 @@ Proof.
       by (cbn [mon_recv]; rewrite Hst; reflexivity).
     rewrite ER. cbn [fst snd System.split_verifies].
     bridge_tail s tid Hrep [LMonAct (negb (has_room cbcap s)); LMonAct false; @LApiAct val tid 1].
+Qed.
+
+(* ---- EnableVerification ---- *)
+
+Definition enable_matches (o : outcome (cfgv * N)) (r : ret cfgv) : Prop :=
+  match o with
+  | Ok (c, k) => r = RetEnable (EOk (k, c))
+  | Err _ => r = RetEnable EErr
+  | Panic _ => False
+  end.
+
+Ltac run_steps Hs :=
+  cbn [System.run System.step negb]; unfold System.api_start, System.mon_recv_step, System.mon_act_step, System.api_act, ctlcap in *;
+  repeat (progress (simp_state; cbn [negb N.eqb existsb reply_ret length N.of_nat N.ltb N.compare Pos.of_succ_nat];
+                    rewrite ?Hs, ?lookup_update, ?N.eqb_refl, ?orb_true_r)).
+
+Theorem seq_enable_refines_system_l : forall (s : sysB) st tid,
+  s_mon s = MRun st [] -> s_ctl s = [] ->
+  lookup tid (s_thr s) = None -> lookup tid (s_eresps s) = None ->
+  let d := d_enable verify prm (abs s st) in
+  exists ls s' st' r,
+    runB s (LApiStart tid OpEnable :: ls) = Some s' /\
+    s_mon s' = MRun st' [] /\
+    mon_eq (abs s' st') (fst d) /\
+    lookup tid (s_thr s') = Some (mkThr OpEnable (PDone r) false) /\
+    enable_matches (snd d) r /\
+    s_cb s' = s_cb s /\ s_cbq s' = s_cbq s.
+Proof.
+  intros s st tid Hm Hc Hl He d. subst d. unfold d_enable.
+  cbn [abs d_slots d_skipv d_cur d_serial d_events d_vlog d_watching d_newcfg d_errcb d_alive].
+  destruct (SeqDials.p_delay prm) eqn:Ed; cbn [negb].
+  - (* delayed verification: through the monitor *)
+    destruct (m_skip st) eqn:Ek; cbn [negb].
+    + (* still delayed: Verify the installed config *)
+      destruct (verify (snd (s_value s))) eqn:Ev.
+      * exists [LApiAct tid 1; LMonRecv RCtl; LMonAct false; LApiAct tid 1]. do 3 eexists.
+        split; [cbn [System.run System.step]; unfold System.api_start; rewrite Hl; simp_state; cbn [Monitor.p_delay pB]; rewrite Ed, Hm; cbn [negb];
+                cbn [System.run System.step]; unfold System.api_act; simp_state; rewrite lookup_update, N.eqb_refl; simp_state;
+                cbn [N.eqb]; unfold ctlcap; rewrite Hc; cbn [length N.of_nat N.ltb N.compare];
+                cbn [System.run System.step]; unfold System.mon_recv_step; simp_state; rewrite Hm; cbn [app]; simp_state;
+                rewrite mon_take_eq; simp_state; cbn [mon_recv]; rewrite Ek, Ev; cbn [fst snd System.split_verifies];
+                cbn [System.run System.step]; unfold System.mon_act_step; simp_state; rewrite He;
+                cbn [System.run System.step]; unfold System.api_act; simp_state; rewrite !lookup_update, !N.eqb_refl; simp_state;
+                cbn [N.eqb]; rewrite ?lookup_update, ?N.eqb_refl; reflexivity|].
+        split; [simp_state; reflexivity|].
+        split; [unfold mon_eq, abs; simp_state; cbn [d_slots d_watching d_cur d_serial d_skipv d_events d_vlog d_alive option_map];
+                rewrite ?vlog_of_app; cbn [vlog_of flat_map app]; rewrite ?app_nil_r; repeat split; reflexivity|].
+        split; [simp_state; rewrite lookup_update, N.eqb_refl; reflexivity|].
+        split; [cbn; destruct (s_value s); reflexivity|]. split; simp_state; reflexivity.
+      * exists [LApiAct tid 1; LMonRecv RCtl; LMonAct false; LApiAct tid 1]. do 3 eexists.
+        split; [cbn [System.run System.step]; unfold System.api_start; rewrite Hl; simp_state; cbn [Monitor.p_delay pB]; rewrite Ed, Hm; cbn [negb];
+                cbn [System.run System.step]; unfold System.api_act; simp_state; rewrite lookup_update, N.eqb_refl; simp_state;
+                cbn [N.eqb]; unfold ctlcap; rewrite Hc; cbn [length N.of_nat N.ltb N.compare];
+                cbn [System.run System.step]; unfold System.mon_recv_step; simp_state; rewrite Hm; cbn [app]; simp_state;
+                rewrite mon_take_eq; simp_state; cbn [mon_recv]; rewrite Ek, Ev; cbn [fst snd System.split_verifies];
+                cbn [System.run System.step]; unfold System.mon_act_step; simp_state; rewrite He;
+                cbn [System.run System.step]; unfold System.api_act; simp_state; rewrite !lookup_update, !N.eqb_refl; simp_state;
+                cbn [N.eqb]; rewrite ?lookup_update, ?N.eqb_refl; reflexivity|].
+        split; [simp_state; reflexivity|].
+        split; [unfold mon_eq, abs; simp_state; cbn [d_slots d_watching d_cur d_serial d_skipv d_events d_vlog d_alive option_map];
+                rewrite ?vlog_of_app; cbn [vlog_of flat_map app]; rewrite ?app_nil_r, ?Ek; repeat split; try reflexivity; destruct st; cbn in *; congruence|].
+        split; [simp_state; rewrite lookup_update, N.eqb_refl; reflexivity|].
+        split; [cbn; reflexivity|]. split; simp_state; reflexivity.
+    + (* verification already enabled: answered without Verify *)
+      exists [LApiAct tid 1; LMonRecv RCtl; LMonAct false; LApiAct tid 1]. do 3 eexists.
+      split; [cbn [System.run System.step]; unfold System.api_start; rewrite Hl; simp_state; cbn [Monitor.p_delay pB]; rewrite Ed, Hm; cbn [negb];
+              cbn [System.run System.step]; unfold System.api_act; simp_state; rewrite lookup_update, N.eqb_refl; simp_state;
+              cbn [N.eqb]; unfold ctlcap; rewrite Hc; cbn [length N.of_nat N.ltb N.compare];
+              cbn [System.run System.step]; unfold System.mon_recv_step; simp_state; rewrite Hm; cbn [app]; simp_state;
+              rewrite mon_take_eq; simp_state; cbn [mon_recv]; rewrite Ek; cbn [fst snd System.split_verifies];
+              cbn [System.run System.step]; unfold System.mon_act_step; simp_state; rewrite He;
+              cbn [System.run System.step]; unfold System.api_act; simp_state; rewrite !lookup_update, !N.eqb_refl; simp_state;
+              cbn [N.eqb]; rewrite ?lookup_update, ?N.eqb_refl; reflexivity|].
+      split; [simp_state; reflexivity|].
+      split; [unfold mon_eq, abs; simp_state; cbn [d_slots d_watching d_cur d_serial d_skipv d_events d_vlog d_alive option_map];
+              rewrite ?vlog_of_app; cbn [vlog_of flat_map app]; rewrite ?app_nil_r; repeat split; reflexivity|].
+      split; [simp_state; rewrite lookup_update, N.eqb_refl; reflexivity|].
+      split; [cbn; destruct (s_value s); reflexivity|]. split; simp_state; reflexivity.
+  - (* no delay: a no-op answered by the caller itself *)
+    exists []. do 3 eexists.
+    split; [cbn [System.run System.step]; unfold System.api_start; rewrite Hl; simp_state; cbn [Monitor.p_delay pB]; rewrite Ed; cbn [negb]; reflexivity|].
+    split; [simp_state; exact Hm|].
+    split; [unfold mon_eq, abs; simp_state; cbn [d_slots d_watching d_cur d_serial d_skipv d_events d_vlog d_alive option_map];
+            rewrite ?vlog_of_app; cbn [vlog_of flat_map app]; rewrite ?app_nil_r; repeat split; reflexivity|].
+    split; [simp_state; rewrite lookup_update, N.eqb_refl; reflexivity|].
+    split; [cbn; destruct (s_value s); reflexivity|]. split; simp_state; reflexivity.
+Qed.
+
+(* ---- WatchArgs.Done ---- *)
+
+Theorem seq_done_refines_system_l : forall (s : sysB) st tid i,
+  s_mon s = MRun st [] -> lookup tid (s_thr s) = None ->
+  let d := d_done (abs s st) i in
+  exists s' st',
+    runB s [LApiStart tid (OpOffer (MsgDone i)); LMonRecv (ROffer tid)] = Some s' /\
+    s_mon s' = MRun st' (if d_alive d then [] else [AExit]) /\
+    (d_slots (abs s' st') = d_slots d /\ d_watching (abs s' st') = d_watching d /\ d_cur (abs s' st') = d_cur d /\
+     d_serial (abs s' st') = d_serial d /\ d_skipv (abs s' st') = d_skipv d /\ d_events (abs s' st') = d_events d /\
+     d_vlog (abs s' st') = d_vlog d) /\
+    lookup tid (s_thr s') = Some (mkThr (OpOffer (MsgDone i)) (PDone RetUnit) false) /\
+    s_cb s' = s_cb s /\ s_cbq s' = s_cbq s /\
+    (d_alive d = false ->
+       exists s'', stepB s' (LMonAct false) = Some s'' /\ s_mon s'' = MExited /\ s_done s'' = true).
+Proof.
+  intros s st tid i Hm Hl d. subst d. unfold d_done.
+  cbn [abs d_slots d_skipv d_cur d_serial d_events d_vlog d_watching d_newcfg d_errcb d_alive andb].
+  rewrite <- set_nth_same.
+  set (m := @MsgDone val i). set (op := OpOffer m).
+  set (s1 := set_thread (logged s [GStart tid op]) tid (mkThr op (POffer m) false)).
+  assert (E1 : stepB s (LApiStart tid op) = Some s1) by (apply step_start_offer; exact Hl).
+  assert (E2 : stepB s1 (LMonRecv (ROffer tid)) =
+               Some (mon_take stackB verify pB (finish s1 tid (mkThr op (POffer m) false) RetUnit) st (InSrcDone i))).
+  { rewrite (step_recv_offer s1 st tid (mkThr op (POffer m) false) m); [reflexivity|exact Hm| |reflexivity].
+    subst s1. simp_state. rewrite lookup_update, N.eqb_refl. reflexivity. }
+  cbn [System.run]. rewrite E1, E2, mon_take_eq. clear E1 E2. subst s1. simp_state. cbn [mon_recv fst snd].
+  destruct (existsb (fun b : bool => b) (Monitor.set_nth i false (m_watch st))) eqn:Ex;
+    cbn [System.split_verifies fst snd]; do 2 eexists.
+  - split; [reflexivity|]. split; [simp_state; reflexivity|].
+    split; [unfold abs; simp_state; cbn [d_slots d_watching d_cur d_serial d_skipv d_events d_vlog option_map];
+            rewrite ?vlog_of_app; cbn [vlog_of flat_map app]; rewrite ?app_nil_r; repeat split; reflexivity|].
+    split; [simp_state; rewrite !lookup_update, !N.eqb_refl; reflexivity|].
+    split; [simp_state; reflexivity|]. split; [simp_state; reflexivity|]. intros; discriminate.
+  - split; [reflexivity|]. split; [simp_state; reflexivity|].
+    split; [unfold abs; simp_state; cbn [d_slots d_watching d_cur d_serial d_skipv d_events d_vlog option_map];
+            rewrite ?vlog_of_app; cbn [vlog_of flat_map app]; rewrite ?app_nil_r; repeat split; reflexivity|].
+    split; [simp_state; rewrite !lookup_update, !N.eqb_refl; reflexivity|].
+    split; [simp_state; reflexivity|]. split; [simp_state; reflexivity|].
+    intros _. eexists. cbn [System.step]. unfold System.mon_act_step. simp_state.
+    split; [reflexivity|]. split; simp_state; reflexivity.
+Qed.
+
+(* ---- the global callbacks, once the callback goroutine has drained ---- *)
+
+Notation cb_outB := (cb_out cfgv).
+Notation cstepB := (@cb_step cfgv on_new on_err).
+
+Definition glob_new (os : list cb_outB) : list (cfgv * cfgv) :=
+  flat_map (fun o => match o with OInv (InvNewGlobal o n) => [(snd o, snd n)] | _ => [] end) os.
+Definition glob_err (os : list cb_outB) : list (cfgv * option cfgv) :=
+  flat_map (fun o => match o with OInv (InvErrGlobal _ o rej) => [(snd o, rej)] | _ => [] end) os.
+Definition all_inv (os : list cb_outB) : Prop := forall o, In o os -> exists i, o = OInv i.
+
+(* what the drain leaves untouched *)
+Definition same_but_cb (s s' : sysB) : Prop :=
+  s_mon s' = s_mon s /\ s_value s' = s_value s /\ s_updates s' = s_updates s /\ s_thr s' = s_thr s /\
+  vlog_of (s_log s') = vlog_of (s_log s).
+
+Lemma cb_drain : forall r i (s : sysB) cst,
+  s_cb s = CRun cst (OInv i :: r) -> all_inv r ->
+  exists s', runB s (repeat (@LCbReturn val) (S (length r))) = Some s' /\ s_cb s' = CRun cst [] /\
+    newcfg_of (s_log s') = newcfg_of (s_log s) ++ glob_new r /\
+    errcb_of (s_log s') = errcb_of (s_log s) ++ glob_err r /\
+    same_but_cb s s' /\ s_cbq s' = s_cbq s.
+Proof.
+  induction r as [|o r IH]; intros i s cst Hc Ha.
+  - eexists. cbn [repeat length System.run System.step]. unfold cb_return_step. rewrite Hc.
+    split; [reflexivity|]. unfold same_but_cb. simp_state. cbn [cb_enter].
+    rewrite newcfg_of_app, errcb_of_app, vlog_of_app. cbn. rewrite !app_nil_r. repeat split; reflexivity.
+  - destruct (Ha o (or_introl eq_refl)) as [j ->].
+    assert (Ha' : all_inv r) by (intros x Hx; apply Ha; right; exact Hx).
+    set (s1 := logged (with_cb s (CRun cst (OInv j :: r))) (GCbRet :: cb_enter (OInv j :: r))).
+    destruct (IH j s1 cst eq_refl Ha') as [s' [Hr [Hc' [Hn [He [[M1 [M2 [M3 [M4 M5]]]] Hq]]]]]].
+    exists s'. split.
+    + change (repeat (@LCbReturn val) (S (length (OInv j :: r)))) with (@LCbReturn val :: repeat (@LCbReturn val) (S (length r))).
+      cbn [System.run System.step]. unfold cb_return_step at 1. rewrite Hc. exact Hr.
+    + split; [exact Hc'|]. subst s1. simp_state. cbn [cb_enter] in *.
+      cbn [s_log logged with_cb with_cbq] in Hn, He, M5.
+      rewrite newcfg_of_app in Hn. rewrite errcb_of_app in He. rewrite vlog_of_app in M5.
+      split; [rewrite Hn; cbn [glob_new flat_map]; destruct j; cbn; rewrite <- ?app_assoc; reflexivity|].
+      split; [rewrite He; cbn [glob_err flat_map]; destruct j; cbn; rewrite <- ?app_assoc; reflexivity|].
+      split; [|exact Hq]. unfold same_but_cb. simp_state. rewrite M5. cbn. rewrite app_nil_r. auto.
+Qed.
+
+Lemma cb_take_drain : forall (s : sysB) cst ev rest,
+  s_cb s = CRun cst [] -> s_cbq s = ev :: rest -> all_inv (snd (cstepB cst ev)) ->
+  exists ls s', runB s (@LCbTake val :: ls) = Some s' /\ s_cb s' = CRun (fst (cstepB cst ev)) [] /\ s_cbq s' = rest /\
+    newcfg_of (s_log s') = newcfg_of (s_log s) ++ glob_new (snd (cstepB cst ev)) /\
+    errcb_of (s_log s') = errcb_of (s_log s) ++ glob_err (snd (cstepB cst ev)) /\
+    same_but_cb s s'.
+Proof.
+  intros s cst ev rest Hc Hq Ha.
+  destruct (cstepB cst ev) as [cst' o] eqn:Es. cbn [fst snd] in *.
+  set (s1 := logged (with_cb (with_cbq s rest) (CRun cst' o)) (GTake ev :: cb_enter o)).
+  assert (E1 : stepB s (@LCbTake val) = Some s1).
+  { cbn [System.step]. unfold System.cb_take_step. rewrite Hc, Hq, Es. reflexivity. }
+  destruct o as [|o r].
+  - exists [], s1. cbn [System.run]. rewrite E1. subst s1. unfold same_but_cb. simp_state. cbn [cb_enter].
+    rewrite newcfg_of_app, errcb_of_app, vlog_of_app. cbn. rewrite !app_nil_r.
+    repeat split; reflexivity.
+  - destruct (Ha o (or_introl eq_refl)) as [j ->].
+    assert (Ha' : all_inv r) by (intros x Hx; apply Ha; right; exact Hx).
+    destruct (cb_drain r j s1 cst' eq_refl Ha') as [s' [Hr [Hc' [Hn [He [[M1 [M2 [M3 [M4 M5]]]] Hq']]]]]].
+    exists (repeat (@LCbReturn val) (S (length r))), s'. cbn [System.run]. rewrite E1.
+    split; [exact Hr|]. split; [exact Hc'|]. subst s1. simp_state. cbn [cb_enter] in *.
+    cbn [s_log logged with_cb with_cbq] in Hn, He, M5.
+    rewrite newcfg_of_app in Hn. rewrite errcb_of_app in He. rewrite vlog_of_app in M5.
+    split; [exact Hq'|].
+    split; [rewrite Hn; cbn [glob_new flat_map]; destruct j; cbn; rewrite <- ?app_assoc; reflexivity|].
+    split; [rewrite He; cbn [glob_err flat_map]; destruct j; cbn; rewrite <- ?app_assoc; reflexivity|].
+    unfold same_but_cb. simp_state. rewrite M5. cbn. rewrite app_nil_r. auto.
+Qed.
+
+Lemma deliver_glob : forall o n k (hs : list (N * N)),
+  glob_new (flat_map (@deliver_new cfgv o n k) hs) = [] /\ glob_err (flat_map (@deliver_new cfgv o n k) hs) = [] /\
+  all_inv (flat_map (@deliver_new cfgv o n k) hs).
+Proof.
+  induction hs as [|x r [A [B C]]]; [repeat split; intros ? []|].
+  cbn [flat_map].
+  assert (Hx : glob_new (@deliver_new cfgv o n k x) = [] /\ glob_err (@deliver_new cfgv o n k x) = [] /\
+               all_inv (@deliver_new cfgv o n k x)).
+  { unfold deliver_new. destruct (k <=? snd x); cbn; repeat split; auto; intros y Hy;
+      first [contradiction|destruct Hy as [<-|[]]; eexists; reflexivity]. }
+  destruct Hx as [X1 [X2 X3]]. unfold glob_new, glob_err in *. rewrite !flat_map_app, A, B, X1, X2.
+  repeat split; auto. intros y Hy. apply in_app_or in Hy. destruct Hy; auto.
+Qed.
+
+Lemma glob_of_new : forall cst o n k sup,
+  glob_new (snd (cstepB cst (EvNew o n k sup))) = (if on_new && negb sup then [(snd o, snd n)] else []) /\
+  glob_err (snd (cstepB cst (EvNew o n k sup))) = [] /\ all_inv (snd (cstepB cst (EvNew o n k sup))).
+Proof.
+  intros. cbn [cb_step snd]. destruct (deliver_glob o n k (cb_handles cst)) as [A [B C]].
+  unfold glob_new, glob_err in *. rewrite !flat_map_app, A, B.
+  destruct (on_new && negb sup); cbn; repeat split; auto.
+  - intros y Hy. destruct Hy as [<-|Hy]; [eexists; reflexivity|apply C; exact Hy].
+Qed.
+
+Lemma glob_of_err : forall cst e o rej,
+  glob_new (snd (cstepB cst (EvErr e o rej))) = [] /\
+  glob_err (snd (cstepB cst (EvErr e o rej))) = (if on_err then [(snd o, rej)] else []) /\
+  all_inv (snd (cstepB cst (EvErr e o rej))).
+Proof.
+  intros. cbn [cb_step snd]. destruct on_err; cbn; repeat split; auto.
+  - intros y [<-|[]]. eexists; reflexivity.
+  - intros y [].
+Qed.
+
+Lemma dstate_eta : forall a b : dstate,
+  d_slots a = d_slots b -> d_watching a = d_watching b -> d_cur a = d_cur b -> d_serial a = d_serial b ->
+  d_skipv a = d_skipv b -> d_events a = d_events b -> d_vlog a = d_vlog b ->
+  d_newcfg a = d_newcfg b -> d_errcb a = d_errcb b -> d_alive a = d_alive b -> a = b.
+Proof. intros [] []; cbn; intros; subst; reflexivity. Qed.
+
+(* what the update puts into the queue, and what the global callbacks make of it *)
+Lemma update_callbacks_agree : forall (s : sysB) st i v tid cst,
+  on_new = true -> on_err = true ->
+  (forall c, compose fs defaults (Monitor.set_nth i v (m_slots st)) <> Panic c) ->
+  let d := d_update fs defaults verify prm (abs s st) i v in
+  exists ev,
+    submits_of (snd (mon_recv stackB verify pB (s_value s) st (InUpdate i v (Some tid)))) = [ev] /\
+    all_inv (snd (cstepB cst ev)) /\
+    d_newcfg (fst d) = newcfg_of (s_log s) ++ glob_new (snd (cstepB cst ev)) /\
+    d_errcb (fst d) = errcb_of (s_log s) ++ glob_err (snd (cstepB cst ev)).
+Proof.
+  intros s st i v tid cst Hon Hoe Hnp d. subst d. unfold d_update.
+  cbn [abs d_slots d_skipv d_cur d_serial d_events d_vlog d_watching d_newcfg d_errcb d_alive].
+  rewrite <- set_nth_same. cbn [mon_recv].
+  assert (Hst : stackB (Monitor.set_nth i v (m_slots st)) =
+                match compose fs defaults (Monitor.set_nth i v (m_slots st)) with Ok c => Some c | _ => None end)
+    by reflexivity.
+  rewrite Hst.
+  destruct (compose fs defaults (Monitor.set_nth i v (m_slots st))) as [c|c|c] eqn:Ec; [| |exfalso; eapply Hnp; eauto].
+  - destruct (m_skip st) eqn:Ek; cbn [negb andb].
+    + exists (EvNew (s_value s) (fst (s_value s) + 1, c) (fst (s_value s) + 1) (true && Monitor.p_suppress pB)).
+      split; [reflexivity|].
+      destruct (glob_of_new cst (s_value s) (fst (s_value s) + 1, c) (fst (s_value s) + 1) (true && Monitor.p_suppress pB)) as [A [B C]].
+      split; [exact C|]. cbn [fst d_newcfg d_errcb]. rewrite A, B, Hon, app_nil_r. cbn [pB Monitor.p_suppress andb].
+      destruct (SeqDials.p_suppress prm); cbn; rewrite ?app_nil_r; auto.
+    + destruct (verify c) eqn:Ev; cbn [negb andb].
+      * exists (EvNew (s_value s) (fst (s_value s) + 1, c) (fst (s_value s) + 1) (false && Monitor.p_suppress pB)).
+        split; [reflexivity|].
+        destruct (glob_of_new cst (s_value s) (fst (s_value s) + 1, c) (fst (s_value s) + 1) (false && Monitor.p_suppress pB)) as [A [B C]].
+        split; [exact C|]. cbn [fst d_newcfg d_errcb]. rewrite A, B, Hon, app_nil_r. cbn. auto.
+      * exists (EvErr EVerify (s_value s) (Some c)). split; [reflexivity|].
+        destruct (glob_of_err cst EVerify (s_value s) (Some c)) as [A [B C]].
+        split; [exact C|]. cbn [fst d_newcfg d_errcb]. rewrite A, B, Hoe, app_nil_r. auto.
+  - exists (EvErr EStack (s_value s) None). split; [reflexivity|].
+    destruct (glob_of_err cst EStack (s_value s) None) as [A [B C]].
+    split; [exact C|]. cbn [fst d_newcfg d_errcb]. rewrite A, B, Hoe, app_nil_r. auto.
+Qed.
+
+(* the whole dstate: the update schedule followed by the callback goroutine
+   taking the event and all callbacks returning *)
+Theorem seq_update_refines_system_full_l : forall (s : sysB) st tid i v cst,
+  s_mon s = MRun st [] ->
+  lookup tid (s_thr s) = None -> lookup tid (s_replies s) = None ->
+  (forall c, compose fs defaults (Monitor.set_nth i v (m_slots st)) <> Panic c) ->
+  on_new = true -> on_err = true -> 0 < cbcap ->
+  s_cb s = CRun cst [] -> s_cbq s = [] ->
+  let d := d_update fs defaults verify prm (abs s st) i v in
+  exists ls s' st' r cst',
+    runB s ls = Some s' /\
+    s_mon s' = MRun st' [] /\ s_cb s' = CRun cst' [] /\ s_cbq s' = [] /\
+    abs s' st' = fst d /\
+    lookup tid (s_thr s') = Some (mkThr (OpOffer (MsgUpdate i v true)) (PDone r) false) /\
+    ret_matches (snd d) r.
+Proof.
+  intros s st tid i v cst Hm Hl Hrep Hnp Hon Hoe Hcap Hc Hq d.
+  destruct (seq_update_refines_system_l s st tid i v Hm Hl Hrep Hnp)
+    as [ls1 [s1 [st1 [r [R1 [M1 [[E1 [E2 [E3 [E4 [E5 [E6 [E7 E8]]]]]]] [T1 [RM [C1 [Q1 [N1 X1]]]]]]]]]]]].
+  destruct (update_callbacks_agree s st i v tid cst Hon Hoe Hnp) as [ev [Hs [Ha [Dn De]]]].
+  assert (Hroom : has_room cbcap s = true).
+  { unfold has_room. rewrite Hq. cbn. apply N.ltb_lt. exact Hcap. }
+  rewrite Hroom, Hs, Hq in Q1. cbn [app] in Q1. rewrite Hc in C1.
+  destruct (cb_take_drain s1 cst ev [] C1 Q1 Ha) as [ls2 [s2 [R2 [C2 [Q2 [Hn [He [S1 [S2 [S3 [S4 S5]]]]]]]]]]].
+  exists ((LApiStart tid (OpOffer (MsgUpdate i v true)) :: LMonRecv (ROffer tid) :: ls1) ++ LCbTake :: ls2),
+         s2, st1, r, (fst (cstepB cst ev)).
+  split; [rewrite (run_app stackB verify pB on_new on_err cbcap), R1; exact R2|].
+  split; [rewrite S1; exact M1|]. split; [exact C2|]. split; [exact Q2|].
+  split; [|split; [rewrite S4; exact T1|exact RM]].
+  fold d in E1, E2, E3, E4, E5, E6, E7, E8, Dn, De.
+  apply dstate_eta; cbn [abs d_slots d_watching d_cur d_serial d_skipv d_events d_vlog d_newcfg d_errcb d_alive] in *.
+  - exact E1.
+  - exact E2.
+  - rewrite S2. exact E3.
+  - rewrite S2. exact E4.
+  - exact E5.
+  - rewrite S3. exact E6.
+  - rewrite S5. exact E7.
+  - rewrite Hn, N1, Dn. reflexivity.
+  - rewrite He, X1, De. reflexivity.
+  - exact E8.
+Qed.
+
+(* ---- Params.Config ---- *)
+
+Theorem seq_config_refines_system_l : forall layers watching,
+  existsb (fun b => b) watching = true ->
+  (forall c, compose fs defaults layers <> Panic c) ->
+  match d_config fs defaults verify prm layers watching with
+  | Ok d0 => exists s0 st0, snd (sys_init stackB verify pB layers watching) = Ok s0 /\
+                            s_mon s0 = MRun st0 [] /\ s_cb s0 = CRun cb_init [] /\ s_cbq s0 = [] /\ abs s0 st0 = d0
+  | Err _ => exists c, snd (sys_init stackB verify pB layers watching) = Err c
+  | Panic _ => False
+  end.
+Proof.
+  intros layers watching Hw Hnp. unfold d_config, sys_init, config_init.
+  assert (Hst : stackB layers = match compose fs defaults layers with Ok c => Some c | _ => None end) by reflexivity.
+  rewrite Hst. cbn [pB Monitor.p_skip_initial Monitor.p_delay].
+  destruct (compose fs defaults layers) as [c|c|c] eqn:Ec; [| |exfalso; eapply Hnp; eauto].
+  - destruct (SeqDials.p_skip prm); destruct (SeqDials.p_delay prm); cbn [negb andb orb cr_out cr_verify_log snd];
+      try (rewrite Hw; do 2 eexists; repeat split; reflexivity).
+    destruct (verify c); cbn [cr_out cr_verify_log snd].
+    + rewrite Hw. do 2 eexists. repeat split; reflexivity.
+    + eexists. reflexivity.
+  - eexists. reflexivity.
 Qed.
 
 End Bridge.
